@@ -507,6 +507,14 @@ impl<A: Send + 'static> Cell<A> {
                     let mut inner_s = inner_s.lock();
                     let s = csa.sample();
                     *inner_s = Stream::downgrade(&s);
+                    // built while the transaction propagates, after `s` was visited: `s` will not
+                    // push its dependents again, have this node visited all the same
+                    if s.node().data.visited.load(Ordering::SeqCst) {
+                        let node1 = node1.clone();
+                        s.sodium_ctx().with_data(|data: &mut SodiumCtxData| {
+                            data.changed_nodes.push(node1.box_clone());
+                        });
+                    }
                     node1.add_dependency(s);
                 });
             }
@@ -574,6 +582,14 @@ impl<A: Send + 'static> Cell<A> {
                     let mut last_inner_s = last_inner_s.lock();
                     let s = cca.sample().updates();
                     *last_inner_s = Stream::downgrade(&s);
+                    // built while the transaction propagates, after `s` was visited: `s` will not
+                    // push its dependents again, have this node visited all the same
+                    if s.node().data.visited.load(Ordering::SeqCst) {
+                        let node2 = node2.clone();
+                        s.sodium_ctx().with_data(|data: &mut SodiumCtxData| {
+                            data.changed_nodes.push(node2.box_clone());
+                        });
+                    }
                     node2.add_dependency(s);
                 });
             }
